@@ -49,7 +49,7 @@ def _addr_only(report):
 class C01(verif.Spec):
     prop = "C01"
     comp = "dec"
-    lean_modules = ["ZvbiModel.Props.C01", "ZvbiModel.Props.C01Ttx", "ZvbiModel.Props.C01Enh", "ZvbiModel.Props.C01Seq", "ZvbiModel.Props.C01Trig"]
+    lean_modules = ["ZvbiModel.Props.C01", "ZvbiModel.Props.C01Ttx", "ZvbiModel.Props.C01Enh", "ZvbiModel.Props.C01Seq", "ZvbiModel.Props.C01Cells", "ZvbiModel.Props.C01Trig"]
     harness = "dec_harness"
     timeout_per_case = 20.0
     partial_note = ("proved: the enumerated safety obligations on the component models (Props/C01.lean recursion bound, "
@@ -58,13 +58,18 @@ class C01(verif.Spec):
                     "reference taken by object invocation released on every path, POP pointer / triplet index bounds; Props/C01Seq.lean: "
                     "every X/26 store into enh_lop.enh[] at an index 0..207 for every packet history (sequence test and -1 sentinel "
                     "regenerated), every row of the TOP index page below ROWS for any number of titles (type of the line counter "
-                    "regenerated); "
+                    "regenerated); Props/C01Cells.lean: the address machine of enhance() / enhance_flush() over arbitrary triplets, objects of any "
+                    "nesting, starting position, level and header-only mode - every index into pg->text[], lop.raw[][], drcs_s1[], pg->drcs[], "
+                    "vbi_font_descriptors[], enh[], pop.triplet[] and every stored colour in range, flush loops and nesting terminate; post_enhance, "
+                    "Level 1 double height copy, character_set_designation in range; column_41 in range iff its body loops stop at row 23 "
+                    "(counterexample + known finding C01-column41-navrow on the unchanged tree); all guards / masks / loop bounds regenerated by "
+                    "translate/gen_c01cells.py; "
                     "Props/C01Trig.lean: trigger.c parsers never access memory outside the caller's string / url[] / buf[] / name[] / "
                     "script[] for any byte string, terminate within strlen + 2 iterations, accept a checksum attribute only when it "
                     "verifies, trigger list allocations balanced over all histories, itv_buf index <= 255 - for the source forms "
                     "with fixes/C01-trig-*.diff; on the original forms five counterexample theorems + replays); "
                     "sanitizer-exercised only: exporters (html, vtx, png, xpm, ppm), ure.c regex engine, conv.c/iconv, "
-                    "Level 2.5/3.5 attribute merging in teletext.c enhance() (enhance_flush, DRCS look-up references, F6), "
+                    "the attribute VALUES merged by enhance_flush (addresses are proved), DRCS look-up references and pg->drcs[] lifetime (F6), "
                     "top_label / top_index cell writes, MIP/MPT parsers beyond their index bounds, the Teletext trigger page path of "
                     "packet.c (eacem_trigger: only its extent is a theorem)")
     assumptions = ["malloc does not fail", "callers pass buffers / canvases of the documented size"]
@@ -72,6 +77,11 @@ class C01(verif.Spec):
                     "ASan/UBSan/LSan of gcc 12 as the judge of memory errors in the exercised runs",
                     "allow-list of flat 2-D array walks and of address-only row pointers in the -fsanitize=bounds build "
                     "(checks/C01.py BOUNDS_ALLOW, ADDR_ONLY)",
+                    "translate/gen_c01cells.py (regex extraction of every guard / mask / loop bound of enhance, enhance_flush, enhance_flush_row, "
+                    "post_enhance, column_41, the Level 1 double height copy, VALID_CHARACTER_SET; the text between them is matched literally; C probe "
+                    "for extents, enum values and the holes of vbi_font_descriptors[]); triplet fields as the two writers of packet.c store them "
+                    "(masks regenerated; vbi_unham24p below 2^18 is C12's codec model); the intra-object audit of the bounds build (color_map[] of a "
+                    "fetch with n rows = the same fetch with 1 row)",
                     "translate/gen_enh.py, translate/gen_c01.py (regex extraction of guards / release paths / expressions from "
                     "the C text, C probe for the layout; they stop with an error when the text is not recognised)",
                     "int is 32-bit two's complement (add_modulo is evaluated on BitVec 32)",
@@ -80,12 +90,15 @@ class C01(verif.Spec):
                     "extents); vbi->time restricted to whole seconds in the trig stream (frame arithmetic then exact); TZ=UTC; "
                     "uninitialised heap modelled as the harness allocator's 0xAA fill"]
     open_statements = ["whole-library memory safety for all inputs (only the enumerated obligations are theorems)",
+                       "the Level 1 character loop of vbi_format_vt_page beyond its double height copy, zap_links / flof / top navigation cell "
+                       "writes (sanitizer + intra-object audit only)",
                        "trigger round trip for all well-formed triggers (sender = lib/trig_util.Trig; checked by the oracle on "
                        "generated triggers, not a theorem)"]
 
     def gen_cases(self, rng, tier):
         n = 600 if tier == "quick" else 6000
         cases = []
+        decgen.CELL_REACH.clear()
         for i in range(n):
             kind = rng.choice(["ttx", "ttx", "cc", "cc", "mixed", "noise", "l25", "l25", "l25", "top", "top", "l25top"])
             ops = []
@@ -173,6 +186,8 @@ class C01(verif.Spec):
         return None
 
     def signature(self, case, what):
+        if what.startswith("store behind vbi_page.text["):
+            return what[:160]            # exact: which element, which member (known_findings.C01.json C01-column41-navrow)
         return re.sub(r"\d+", "N", what)[:160]
 
     TRIG_OPS = ("eacem", "atvef", "itv", "time", "tick", "nuid", "flush", "extents")
@@ -306,7 +321,28 @@ class C01(verif.Spec):
                 rep.add(r)
                 if cur is not None and 0 <= cur < len(cases) and (r not in where or len(cases[cur]) < len(where[r])):
                     where[r] = cases[cur]          # the shortest case showing the report becomes its replay
-        self.extra_coverage.update({"bounds_build_cases": len(cases), "bounds_reports_outside_allowlist": sorted(rep)})
+        # intra-object audit of the harness (DEC_STATS build): vbi_page.color_map[] after a fetch with n > 1 rows differs from
+        # the same fetch with 1 row = something stored behind text[] (dec_harness.c, `DECINTRA`)
+        intra, cur = {}, None
+        for line in p.stderr.decode("utf-8", "replace").split("\n"):
+            if line.startswith("DECCASE "):
+                cur = int(line.split()[1]) if line.split()[1].isdigit() else None
+            m = re.match(r"DECINTRA vbi_page\.color_map\[(\d+)\] .*store behind text\[(\d+)\] \(text\[(\d+)\]\)", line)
+            if m:
+                w = "store behind vbi_page.text[%s]: text[%s] (= color_map[%s]) changed by a fetch with more than one row" % (m.group(2), m.group(3), m.group(1))
+                ent = intra.setdefault(w, [0, None])
+                ent[0] += 1
+                if cur is not None and 0 <= cur < len(cases) and (ent[1] is None or len(cases[cur]) < len(ent[1])):
+                    ent[1] = cases[cur]
+        for w, (n, c) in sorted(intra.items()):
+            out.append((w, c or []))
+        self.extra_coverage.update({"bounds_build_cases": len(cases), "bounds_reports_outside_allowlist": sorted(rep),
+                                    "intra_object_audit": {"fetches_flagged": {w: n for w, (n, c) in intra.items()},
+                                                           "what": "color_map[] of every fetch with > 1 rows compared with the same fetch at 1 row (bounds build)"}})
+        self.extra_coverage["cell_corner_reach"] = dict(sorted(decgen.CELL_REACH.items()))
+        self.extra_coverage["cell_corner_reach_legend"] = (
+            "structured Level 2.5 cases (lib/decgen.py L25) whose LOP carries the corner AND which fetch that page at Level 2.5 / 3.5 "
+            "(counted per case by the generator: what it placed where; `fetch_*` = fetches of such pages by rows / level)")
         st = re.findall(r"^DECSTATS (.*)$", p.stderr.decode("utf-8", "replace"), flags=re.M)
         reach = {}
         for line in st:                      # one line per harness process (the run is one process unless a case crashed)
